@@ -70,38 +70,48 @@ blank and no bar -/
 def GarbageTok (tok : List Char) : Prop :=
   ∃ c t, tok = c :: t ∧ tokenStart c = false ∧ ∀ d ∈ tok, blank d = false ∧ d ≠ '|'
 
-inductive SimpleText : Simple → List Char → Prop
-  | prim {op p gap t} : Blanks gap → PartialText t p → SimpleText (.prim op p) (opText op ++ (gap ++ t))
-  | bare {p t} : PartialText t p → SimpleText (.bare p) t
-  | tilde {p gap t} : Blanks gap → PartialText t p → SimpleText (.tilde p) ('~' :: (gap ++ t))
+/-- simple ranges; `G` is the class of tokens that are dropped as garbage -/
+inductive SimpleTextG (G : List Char → Prop) : Simple → List Char → Prop
+  | prim {op p gap t} : Blanks gap → PartialText t p → SimpleTextG G (.prim op p) (opText op ++ (gap ++ t))
+  | bare {p t} : PartialText t p → SimpleTextG G (.bare p) t
+  | tilde {p gap t} : Blanks gap → PartialText t p → SimpleTextG G (.tilde p) ('~' :: (gap ++ t))
   | tildeGt {p gap gap2 t} : Blanks gap → Blanks gap2 → PartialText t p →
-      SimpleText (.tilde p) ('~' :: (gap ++ '>' :: (gap2 ++ t)))
-  | caret {p gap t} : Blanks gap → PartialText t p → SimpleText (.caret p) ('^' :: (gap ++ t))
-  | garbage {tok} : GarbageTok tok → SimpleText (.garbage tok) tok
+      SimpleTextG G (.tilde p) ('~' :: (gap ++ '>' :: (gap2 ++ t)))
+  | caret {p gap t} : Blanks gap → PartialText t p → SimpleTextG G (.caret p) ('^' :: (gap ++ t))
+  | garbage {tok} : G tok → SimpleTextG G (.garbage tok) tok
 
 /-- `simple ( blank+ simple )*`, or nothing -/
-inductive SimplesText : List Simple → List Char → Prop
-  | nil : SimplesText [] []
-  | one {s t} : SimpleText s t → SimplesText [s] t
-  | cons {s t b l T} : SimpleText s t → Blanks1 b → SimplesText l T → l ≠ [] →
-      SimplesText (s :: l) (t ++ (b ++ T))
+inductive SimplesTextG (G : List Char → Prop) : List Simple → List Char → Prop
+  | nil : SimplesTextG G [] []
+  | one {s t} : SimpleTextG G s t → SimplesTextG G [s] t
+  | cons {s t b l T} : SimpleTextG G s t → Blanks1 b → SimplesTextG G l T → l ≠ [] →
+      SimplesTextG G (s :: l) (t ++ (b ++ T))
 
-inductive AltText : Alt → List Char → Prop
-  | simples {l t} : SimplesText l t → AltText (.simples l) t
+inductive AltTextG (G : List Char → Prop) : Alt → List Char → Prop
+  | simples {l t} : SimplesTextG G l t → AltTextG G (.simples l) t
   | hyphen {lo hi a b1 b2 c} : PartialText a lo → Blanks1 b1 → Blanks1 b2 → PartialText c hi →
-      AltText (.hyphen lo hi) (a ++ (b1 ++ '-' :: (b2 ++ c)))
+      AltTextG G (.hyphen lo hi) (a ++ (b1 ++ '-' :: (b2 ++ c)))
 
 /-- `blank* '||' blank*` -/
 def OrText (o : List Char) : Prop := ∃ b1 b2, o = b1 ++ '|' :: '|' :: b2 ∧ Blanks b1 ∧ Blanks b2
 
-inductive AltsText : Ast → List Char → Prop
-  | nil : AltsText [] []
-  | one {a t} : AltText a t → AltsText [a] t
-  | cons {a t o r T} : AltText a t → OrText o → AltsText r T → r ≠ [] → AltsText (a :: r) (t ++ (o ++ T))
+inductive AltsTextG (G : List Char → Prop) : Ast → List Char → Prop
+  | nil : AltsTextG G [] []
+  | one {a t} : AltTextG G a t → AltsTextG G [a] t
+  | cons {a t o r T} : AltTextG G a t → OrText o → AltsTextG G r T → r ≠ [] → AltsTextG G (a :: r) (t ++ (o ++ T))
 
 /-- a whole range text: alternatives, with blanks around -/
-def AstText (r : Ast) (s : List Char) : Prop :=
-  ∃ b1 T b2, s = b1 ++ (T ++ b2) ∧ Blanks b1 ∧ Blanks b2 ∧ AltsText r T
+def AstTextG (G : List Char → Prop) (r : Ast) (s : List Char) : Prop :=
+  ∃ b1 T b2, s = b1 ++ (T ++ b2) ∧ Blanks b1 ∧ Blanks b2 ∧ AltsTextG G r T
+
+/-! The grammar with the parser-independent garbage class `GarbageTok` (tokens whose first character
+can start no comparator).  `Lemmas/Closed.lean` instantiates `G` with a wider class: every closed
+token in which the parser recognises no comparator. -/
+abbrev SimpleText := SimpleTextG GarbageTok
+abbrev SimplesText := SimplesTextG GarbageTok
+abbrev AltText := AltTextG GarbageTok
+abbrev AltsText := AltsTextG GarbageTok
+abbrev AstText := AstTextG GarbageTok
 
 /-! ### examples: the grammar is inhabited by the texts one expects -/
 
